@@ -523,6 +523,25 @@ let cli_line line =
              (String.concat ";" (List.map (fun m -> Printf.sprintf "%X.%s" (int_of_n m.m_off) (match m.m_codes with c :: _ -> dec c | [] -> "-")) shown)))
   | _ -> "unknown"
 
+(* reportless: one whole run in a mode that prints no report.
+   <rdh|frames|data|write> <file|pipe> <filter> <E -|n> <cdps -|n> <hex> *)
+let reportless_line line =
+  match split_ws line with
+  | [ mode; src; filter; ee; cdps; hex ] ->
+      let input = if hex = "-" then [] else bytes_of_hex hex in
+      let m = match mode with "rdh" -> RL_view_rdh | "frames" -> RL_view_frames false | "data" -> RL_view_frames true | _ -> RL_write in
+      let vc = { v_running = false; v_target = T_none; v_period = None; v_custom_version = None; v_chip_count = None; v_chip_orders = None } in
+      let sc = parse_scfg src filter (if mode = "rdh" then "1" else "0") in
+      let c = { rc_scan = sc; rc_check = vc; rc_mute = false; rc_cap = n_of_int 0; rc_filter = None;
+                rc_exit = opt_n ee; rc_counts = { cc_cdps = opt_n cdps; cc_pht = None } } in
+      (match run_reportless fatal_sets_any_errors_flag c m input with
+       | R_too_short -> "SHORT"
+       | R_unrecognised -> "UNRECOGNISED exit=1"
+       | R_panic s -> "PANIC:" ^ dec s
+       | R_done (s, _, ex) ->
+           Printf.sprintf "exit=%s total=%s fatal=%s" (dec ex) (dec s.k_total) (match s.k_fatal with Some _ -> "1" | None -> "0"))
+  | _ -> "unknown"
+
 let rdhrt_line line =
   let b = bytes_of_hex (String.trim line) in
   let r = decode_rdh b in
@@ -590,6 +609,7 @@ let () =
     | "collector" -> collector_line
     | "stats" -> stats_line
     | "cli" -> cli_line
+    | "reportless" -> reportless_line
     | "grammar" -> grammar_line
     | "grammarits" -> grammarits_line
     | "view" -> view_line
